@@ -902,6 +902,29 @@ def _forward_single_results(fnode):
         sp, lp = parent.get(id(st_nodes[0])), parent.get(id(ld[0]))
         if not (isinstance(sp, ast.Assign) and len(sp.targets) == 1 and sp.targets[0] is st_nodes[0]):
             continue
+        # `inl_ret = E` / `if inl_ret:` (the read is the first thing the test evaluates) -> `if E:`
+        top = ld[0]
+        while isinstance(parent.get(id(top)), (ast.BoolOp, ast.UnaryOp)):
+            pp = parent[id(top)]
+            if isinstance(pp, ast.BoolOp) and pp.values[0] is not top:
+                break
+            if isinstance(pp, ast.UnaryOp) and not isinstance(pp.op, ast.Not):
+                break
+            top = pp
+        ifst = parent.get(id(top))
+        if isinstance(ifst, ast.If) and ifst.test is top:
+            holder = parent.get(id(sp))
+            if holder is not None and holder is parent.get(id(ifst)):
+                for fld in ("body", "orelse", "finalbody"):
+                    lst = getattr(holder, fld, None)
+                    if isinstance(lst, list) and sp in lst and ifst in lst and lst.index(ifst) == lst.index(sp) + 1:
+                        class R(ast.NodeTransformer):
+                            def visit_Name(self, n, _ld=ld[0], _v=sp.value):
+                                return _v if n is _ld else n
+                        ifst.test = R().visit(ifst.test)
+                        lst.remove(sp)
+                        break
+            continue
         if not (isinstance(lp, ast.Assign) and lp.value is ld[0] and len(lp.targets) == 1 and isinstance(lp.targets[0], ast.Name)):
             continue
         # same statement list, the copy right after the store
@@ -1217,6 +1240,12 @@ def _desugar_body(stmts):
                 new_st._annotation = st.annotation
                 st = new_st
                 changed = True
+        hoisted = _hoist_leading_walrus(st)
+        if hoisted:
+            new, _ = _desugar_body(hoisted)
+            out += new
+            changed = True
+            continue
         if isinstance(st, ast.Match):
             ifs = _match_to_ifs(st)
             if ifs is not None:
@@ -1262,6 +1291,61 @@ def _desugar_body(stmts):
         else:
             out.append(st)
     return out, changed
+
+
+def _leading_walrus(e):
+    """The `name := value` that is evaluated first, unconditionally and before anything else of the expression."""
+    while True:
+        if isinstance(e, ast.NamedExpr):
+            return e if isinstance(e.target, ast.Name) else None
+        if isinstance(e, ast.Compare):
+            e = e.left
+        elif isinstance(e, ast.BoolOp):
+            e = e.values[0]
+        elif isinstance(e, ast.UnaryOp):
+            e = e.operand
+        elif isinstance(e, ast.BinOp):
+            e = e.left
+        elif isinstance(e, (ast.Attribute, ast.Subscript, ast.Starred)):
+            e = e.value
+        elif isinstance(e, ast.Call):
+            if isinstance(e.func, ast.Name):
+                if not e.args:
+                    return None
+                e = e.args[0]
+            else:
+                e = e.func
+        elif isinstance(e, (ast.Tuple, ast.List)) and e.elts:
+            e = e.elts[0]
+        else:
+            return None
+
+
+def _hoist_leading_walrus(st):
+    """`if (x := E) is not None: ...` -> `x = E` / `if x is not None: ...` (also for the value of a return, an assignment
+    or an expression statement).  None when the statement has no such leading assignment expression."""
+    if isinstance(st, ast.If):
+        holder, fld = st, "test"
+    elif isinstance(st, (ast.Return, ast.Assign, ast.Expr)) and st.value is not None:
+        holder, fld = st, "value"
+    else:
+        return None
+    w = _leading_walrus(getattr(holder, fld))
+    if w is None:
+        return None
+    if isinstance(st, ast.Assign) and any(isinstance(x, ast.Name) and x.id == w.target.id for t in st.targets for x in ast.walk(t)):
+        return None
+
+    class R(ast.NodeTransformer):
+        def visit_NamedExpr(self, n):
+            if n is w:
+                return ast.copy_location(ast.Name(id=w.target.id, ctx=ast.Load()), n)
+            return self.generic_visit(n)
+
+    setattr(holder, fld, R().visit(getattr(holder, fld)))
+    pre = ast.copy_location(ast.Assign(targets=[ast.Name(id=w.target.id, ctx=ast.Store())], value=w.value, lineno=st.lineno), st)
+    ast.fix_missing_locations(pre)
+    return [pre, st]
 
 
 def _pattern_test(pat, subj, binds):
@@ -1318,10 +1402,29 @@ def _match_to_ifs(st):
             return True
         if isinstance(e, ast.Attribute):
             return pure(e.value)
+        if isinstance(e, ast.Call) and isinstance(e.func, ast.Name) and e.func.id in ("len", "type") and not e.keywords:
+            return all(pure(x) for x in e.args)  # deterministic and free of effects: may be written once per test
         return isinstance(e, ast.Tuple) and all(pure(x) for x in e.elts)
 
+    pre = []
     if not pure(st.subject):
-        return None
+        # evaluate the subject (or the impure elements of a literal tuple subject) once, into temporaries
+        _NEXT_COUNTER[0] += 1
+        if isinstance(st.subject, ast.Tuple):
+            elts = []
+            for k, x in enumerate(st.subject.elts):
+                if pure(x):
+                    elts.append(x)
+                    continue
+                nm = "_match%d_%d" % (_NEXT_COUNTER[0], k)
+                pre.append(ast.copy_location(ast.Assign(targets=[ast.Name(id=nm, ctx=ast.Store())], value=x, lineno=st.lineno), st))
+                elts.append(ast.Name(id=nm, ctx=ast.Load()))
+            subject = ast.Tuple(elts=elts, ctx=ast.Load())
+        else:
+            nm = "_match%d" % _NEXT_COUNTER[0]
+            pre.append(ast.copy_location(ast.Assign(targets=[ast.Name(id=nm, ctx=ast.Store())], value=st.subject, lineno=st.lineno), st))
+            subject = ast.Name(id=nm, ctx=ast.Load())
+        st = ast.copy_location(ast.Match(subject=subject, cases=st.cases), st)
     arms = []
     for case in st.cases:
         binds = []
@@ -1342,8 +1445,8 @@ def _match_to_ifs(st):
         new_if = ast.copy_location(ast.If(test=t, body=body, orelse=(node if isinstance(node, list) else ([node] if node is not None else []))), st)
         node = new_if
     if node is None:
-        return [ast.copy_location(ast.Pass(), st)]
-    out = node if isinstance(node, list) else [node]
+        return pre + [ast.copy_location(ast.Pass(), st)]
+    out = pre + (node if isinstance(node, list) else [node])
     for x in out:
         ast.fix_missing_locations(x)
     return out
@@ -1811,6 +1914,292 @@ def sink_returns(model):
     return n
 
 
+def merge_private_mixins(trees, to_module):
+    """A private class (`_Name`, no bases besides object, no decorators) that exactly one class of the library lists as a
+    base and that nothing else mentions is a piece of that class kept apart: its methods and class attributes are moved
+    into the subclass (unless the subclass, or a library base listed before it, defines the name: then that definition
+    wins in the method resolution order anyway and the mixin's is dropped), and the base is removed from the list.
+    `trees`: relpath -> (module tree, source); `to_module`: relpath -> dotted module name.
+    Moved functions remember their home module (`_home`) for the resolution of the global names they read.
+    Returns [(mixin, subclass)].  Anything unusual (super(), name-mangled attributes, other statements in the body,
+    further uses of the class) leaves the classes alone."""
+    import os
+
+    top = {}  # (path, name) -> ClassDef
+    for path, (tree, _src) in trees.items():
+        for st in tree.body:
+            if isinstance(st, ast.ClassDef):
+                top[(path, st.name)] = st
+    mod_path = {m: p_ for p_, m in to_module.items()}
+
+    def resolve(path, name):
+        """(path, original name) of the library class that `name` denotes at module level in `path`, or None"""
+        if (path, name) in top:
+            return (path, name)
+        tree = trees[path][0]
+        for st in tree.body:
+            if isinstance(st, ast.ImportFrom):
+                for al in st.names:
+                    if (al.asname or al.name) == name:
+                        if st.level:
+                            base = to_module[path].split(".")
+                            if not path.endswith("__init__.py"):
+                                base = base[:-1]
+                            base = base[: len(base) - (st.level - 1)]
+                            target = ".".join(base + ([st.module] if st.module else []))
+                        else:
+                            target = st.module or ""
+                        tp = mod_path.get(target)
+                        if tp is not None and (tp, al.name) in top:
+                            return (tp, al.name)
+                        return None
+        return None
+
+    def defines(cd):
+        out = set()
+        for st in cd.body:
+            if isinstance(st, (ast.FunctionDef, ast.AsyncFunctionDef, ast.ClassDef)):
+                out.add(st.name)
+            elif isinstance(st, ast.Assign):
+                out |= {t.id for t in st.targets if isinstance(t, ast.Name)}
+            elif isinstance(st, ast.AnnAssign) and isinstance(st.target, ast.Name) and st.value is not None:
+                out.add(st.target.id)
+        return out
+
+    def mro_defines(key, seen=()):
+        if key is None or key in seen:
+            return set()
+        cd = top[key]
+        out = defines(cd)
+        for b in cd.bases:
+            if isinstance(b, ast.Name):
+                out |= mro_defines(resolve(key[0], b.id), seen + (key,))
+        return out
+
+    # every mention of a class name, module by module
+    users = {}  # mixin key -> [(path, ClassDef listing it as a base)]
+    other_use = set()
+    for path, (tree, _src) in trees.items():
+        base_slots = {id(b) for st in tree.body if isinstance(st, ast.ClassDef) for b in st.bases}
+        for st in tree.body:
+            if isinstance(st, ast.ClassDef):
+                for b in st.bases:
+                    if isinstance(b, ast.Name):
+                        k = resolve(path, b.id)
+                        if k is not None and k[1].startswith("_"):
+                            users.setdefault(k, []).append((path, st))
+        if not any(nm.startswith("_") for (p_, nm) in top):
+            continue
+        for n in ast.walk(tree):
+            if isinstance(n, ast.Name) and id(n) not in base_slots and n.id.startswith("_") and not isinstance(n.ctx, ast.Store):
+                k = resolve(path, n.id)
+                if k is not None:
+                    other_use.add(k)
+            elif isinstance(n, ast.Attribute) and n.attr.startswith("_") and any(n.attr == nm for (_p, nm) in top):
+                other_use |= {k for k in top if k[1] == n.attr}
+    merged = []
+    for key, us in sorted(users.items()):
+        m = top[key]
+        if len(us) != 1 or key in other_use or m.decorator_list or m.keywords:
+            continue
+        if any(not (isinstance(b, ast.Name) and b.id == "object") for b in m.bases):
+            continue
+        dpath, d = us[0]
+        moved, ok = [], True
+        for st in m.body:
+            if isinstance(st, ast.Expr) and isinstance(st.value, ast.Constant):
+                continue
+            if isinstance(st, ast.Pass):
+                continue
+            if isinstance(st, ast.If) and "TYPE_CHECKING" in ast.unparse(st.test) and not st.orelse:
+                continue
+            if isinstance(st, ast.AnnAssign) and st.value is None:
+                continue
+            if isinstance(st, ast.Assign) and len(st.targets) == 1 and isinstance(st.targets[0], ast.Name) and st.targets[0].id == "__slots__":
+                continue
+            if isinstance(st, (ast.FunctionDef, ast.Assign, ast.AnnAssign)):
+                moved.append(st)
+                continue
+            ok = False
+        for st in moved:
+            for n in ast.walk(st):
+                if isinstance(n, ast.Name) and n.id in ("super", "__class__"):
+                    ok = False
+                if isinstance(n, ast.Attribute) and n.attr.startswith("__") and not n.attr.endswith("__"):
+                    ok = False
+        if not ok or not moved:
+            continue
+        own = defines(d)
+        idx = [i for i, b in enumerate(d.bases) if isinstance(b, ast.Name) and resolve(dpath, b.id) == key][0]
+        earlier = set()
+        for b in d.bases[:idx]:
+            if isinstance(b, ast.Name):
+                earlier |= mro_defines(resolve(dpath, b.id))
+        keep = []
+        for st in moved:
+            names = {st.name} if isinstance(st, ast.FunctionDef) else ({t.id for t in st.targets if isinstance(t, ast.Name)} if isinstance(st, ast.Assign) else {st.target.id} if isinstance(st.target, ast.Name) else set())
+            if not names or (names & own) or (names & earlier):
+                continue  # shadowed: the mixin's definition is never the one found
+            keep.append(st)
+        if any(isinstance(st, (ast.Assign, ast.AnnAssign)) for st in keep) and dpath != key[0]:
+            continue  # class attributes computed from another module's globals: leave alone
+        for st in keep:
+            if dpath != key[0]:
+                st._home = (to_module[key[0]], key[0])
+            st._parent = d
+        # class attributes first (methods of the subclass may not be reordered), then the methods at the end
+        lead = 1 if d.body and isinstance(d.body[0], ast.Expr) and isinstance(d.body[0].value, ast.Constant) else 0
+        attrs = [st for st in keep if not isinstance(st, ast.FunctionDef)]
+        d.body[lead:lead] = attrs
+        d.body += [st for st in keep if isinstance(st, ast.FunctionDef)]
+        del d.bases[idx]
+        m.body = [st for st in m.body if st not in moved] or [ast.copy_location(ast.Pass(), m)]
+        merged.append((key[1], d.name))
+    return merged
+
+
+def _defaultdict_to_get(fn_node):
+    """A local bound once to `defaultdict(int)` / `defaultdict(float)` / `defaultdict(lambda: C)` / `Counter()` and only
+    read by subscript inside the value stored back under the same key (`d[k] = d[k] + e`, `d[k] += e`) is the explicit
+    accumulator `d = {}` ... `d[k] = d.get(k, 0) + e`.  Returns whether anything changed."""
+    cands = {}
+    stores = {}
+    for n in ast.walk(fn_node):
+        if isinstance(n, ast.Name) and isinstance(n.ctx, ast.Store):
+            stores[n.id] = stores.get(n.id, 0) + 1
+        if isinstance(n, (ast.Assign, ast.AnnAssign)) and n.value is not None:
+            tg = n.targets[0] if isinstance(n, ast.Assign) and len(n.targets) == 1 else getattr(n, "target", None)
+            v = n.value
+            if isinstance(tg, ast.Name) and isinstance(v, ast.Call) and not v.keywords:
+                f = v.func.attr if isinstance(v.func, ast.Attribute) else v.func.id if isinstance(v.func, ast.Name) else None
+                dflt = None
+                if f == "defaultdict" and len(v.args) == 1:
+                    a = v.args[0]
+                    if isinstance(a, ast.Name) and a.id in ("int", "float"):
+                        dflt = ast.Constant(value=0 if a.id == "int" else 0.0)
+                    elif isinstance(a, ast.Lambda) and not a.args.args and isinstance(a.body, ast.Constant):
+                        dflt = ast.Constant(value=a.body.value)
+                elif f == "Counter" and not v.args:
+                    dflt = ast.Constant(value=0)
+                if dflt is not None:
+                    cands[tg.id] = (n, dflt)
+    cands = {k: v for k, v in cands.items() if stores.get(k) == 1 and k not in {a.arg for a in fn_node.args.args}}
+    if not cands:
+        return False
+    # every Load-subscript of the candidate must sit in the value of a store under the same key
+    ok_reads = {}
+    for n in ast.walk(fn_node):
+        if isinstance(n, ast.Assign) and len(n.targets) == 1 and isinstance(n.targets[0], ast.Subscript) and isinstance(n.targets[0].value, ast.Name) and n.targets[0].value.id in cands:
+            key = ast.dump(n.targets[0].slice)
+            for x in ast.walk(n.value):
+                if isinstance(x, ast.Subscript) and isinstance(x.value, ast.Name) and x.value.id == n.targets[0].value.id and ast.dump(x.slice) == key:
+                    ok_reads[id(x)] = True
+    # ... unless the table is never looked at as a whole (only subscripted): the keys a read inserts cannot be observed then
+    whole = set()
+    for n in ast.walk(fn_node):
+        for ch in ast.iter_child_nodes(n):
+            if isinstance(ch, ast.Name) and ch.id in cands and not isinstance(ch.ctx, ast.Store) and not (isinstance(n, ast.Subscript) and ch is n.value):
+                whole.add(ch.id)
+    for n in ast.walk(fn_node):
+        if isinstance(n, ast.Subscript) and isinstance(n.ctx, ast.Load) and isinstance(n.value, ast.Name) and n.value.id in cands and id(n) not in ok_reads and n.value.id in whole:
+            cands.pop(n.value.id, None)
+        if isinstance(n, (ast.FunctionDef, ast.Lambda)) and n is not fn_node:
+            for x in ast.walk(n):
+                if isinstance(x, ast.Name) and x.id in cands:
+                    cands.pop(x.id, None)
+    if not cands:
+        return False
+
+    class R(ast.NodeTransformer):
+        def visit_Subscript(self, n):
+            self.generic_visit(n)
+            if isinstance(n.ctx, ast.Load) and isinstance(n.value, ast.Name) and n.value.id in cands:
+                return ast.copy_location(ast.Call(func=ast.Attribute(value=n.value, attr="get", ctx=ast.Load()), args=[n.slice, _clone(cands[n.value.id][1])], keywords=[]), n)
+            return n
+
+        def visit_AugAssign(self, n):
+            self.generic_visit(n)
+            t = n.target
+            if isinstance(t, ast.Subscript) and isinstance(t.value, ast.Name) and t.value.id in cands:
+                read = ast.Call(func=ast.Attribute(value=_clone(t.value), attr="get", ctx=ast.Load()), args=[_clone(t.slice), _clone(cands[t.value.id][1])], keywords=[])
+                read.func.value.ctx = ast.Load()
+                return ast.copy_location(ast.Assign(targets=[t], value=ast.BinOp(left=read, op=n.op, right=n.value), lineno=n.lineno), n)
+            return n
+
+    R().visit(fn_node)
+    for name, (st, _d) in cands.items():
+        st.value = ast.copy_location(ast.Dict(keys=[], values=[]), st.value)
+    ast.fix_missing_locations(fn_node)
+    return True
+
+
+def _counted_while_to_for(fn_node):
+    """`n = N; while n > 0: BODY; n -= 1` (n used nowhere else) -> `for _ in range(N): BODY`, and
+    `i = 0; while i < N: BODY; i += 1` (i not stored in BODY, not used outside the pair, N's names not stored in BODY)
+    -> `for i in range(N): BODY`.  `range(X).stop` as N is X.  Returns whether anything changed."""
+    uses = {}
+    for x in ast.walk(fn_node):
+        if isinstance(x, ast.Name):
+            uses[x.id] = uses.get(x.id, 0) + 1
+    changed = [False]
+
+    def names(e, store_only=False):
+        return {x.id for x in ast.walk(e) if isinstance(x, ast.Name) and (not store_only or isinstance(x.ctx, (ast.Store, ast.Del)))}
+
+    def bound(e):
+        if isinstance(e, ast.Attribute) and e.attr == "stop" and isinstance(e.value, ast.Call) and isinstance(e.value.func, ast.Name) and e.value.func.id == "range" and len(e.value.args) == 1 and not e.value.keywords:
+            return e.value.args[0]
+        return e
+
+    def block(stmts):
+        for st in stmts:
+            if isinstance(st, (ast.FunctionDef, ast.AsyncFunctionDef, ast.ClassDef)):
+                continue
+            for fld in ("body", "orelse", "finalbody"):
+                sub = getattr(st, fld, None)
+                if isinstance(sub, list) and sub and isinstance(sub[0], ast.stmt):
+                    block(sub)
+            for h in getattr(st, "handlers", []) or []:
+                block(h.body)
+        i = 0
+        while i + 1 < len(stmts):
+            a, w = stmts[i], stmts[i + 1]
+            i += 1
+            if not (isinstance(a, ast.Assign) and len(a.targets) == 1 and isinstance(a.targets[0], ast.Name) and isinstance(w, ast.While) and not w.orelse and w.body):
+                continue
+            v = a.targets[0].id
+            last = w.body[-1]
+            if not (isinstance(last, ast.AugAssign) and isinstance(last.target, ast.Name) and last.target.id == v and isinstance(last.value, ast.Constant) and last.value.value == 1 and type(last.value.value) is int):
+                continue
+            body = w.body[:-1]
+            if any(isinstance(x, ast.Continue) for b in body for x in ast.walk(b)):
+                continue
+            t = w.test
+            if not (isinstance(t, ast.Compare) and len(t.ops) == 1):
+                continue
+            l, op, r = t.left, t.ops[0], t.comparators[0]
+            if isinstance(l, ast.Constant) and isinstance(r, ast.Name):  # 0 < n  ==  n > 0
+                flip = {ast.Lt: ast.Gt, ast.LtE: ast.GtE, ast.Gt: ast.Lt, ast.GtE: ast.LtE}.get(type(op))
+                if flip is None:
+                    continue
+                l, op, r = r, flip(), l
+            if not (isinstance(l, ast.Name) and l.id == v):
+                continue
+            in_body = sum(1 for b in body for x in ast.walk(b) if isinstance(x, ast.Name) and x.id == v)
+            new = None
+            if isinstance(last.op, ast.Sub) and uses.get(v) == 3 and in_body == 0 and isinstance(r, ast.Constant) and ((isinstance(op, ast.Gt) and r.value == 0) or (isinstance(op, ast.GtE) and r.value == 1)) and type(r.value) is int:
+                new = ast.For(target=ast.Name(id="_", ctx=ast.Store()), iter=ast.Call(func=ast.Name(id="range", ctx=ast.Load()), args=[bound(a.value)], keywords=[]), body=body or [ast.Pass()], orelse=[], lineno=w.lineno)
+            elif isinstance(last.op, ast.Add) and isinstance(op, ast.Lt) and isinstance(a.value, ast.Constant) and a.value.value == 0 and type(a.value.value) is int and uses.get(v) == 3 + in_body and v not in {n_ for b in body for n_ in names(b, True)} and not (names(r) & {n_ for b in body for n_ in names(b, True)}) and not any(isinstance(x, ast.Call) for x in ast.walk(r)):
+                new = ast.For(target=ast.Name(id=v, ctx=ast.Store()), iter=ast.Call(func=ast.Name(id="range", ctx=ast.Load()), args=[bound(r)], keywords=[]), body=body or [ast.Pass()], orelse=[], lineno=w.lineno)
+            if new is not None:
+                ast.copy_location(new, w)
+                stmts[i - 1:i + 1] = [new]
+                changed[0] = True
+
+    block(fn_node.body)
+    return changed[0]
+
+
 def desugar(model):
     """`return a if c else b` and `x = a if c else b` become if/else statements, so that every rule sees
     the branch structure (conditions as dominating facts, one return per alternative)."""
@@ -1820,8 +2209,10 @@ def desugar(model):
             continue
         if False and not any(isinstance(x, (ast.IfExp, ast.AnnAssign)) or (isinstance(x, ast.Assign) and isinstance(x.targets[0], (ast.Tuple, ast.List)) and isinstance(x.value, (ast.Tuple, ast.List))) for x in ast.walk(fn.node)):
             continue
+        cw = any(isinstance(x, ast.While) for x in ast.walk(fn.node)) and _counted_while_to_for(fn.node)
+        cw = (fn.parent is None and any(isinstance(x, ast.Call) and isinstance(x.func, (ast.Name, ast.Attribute)) and (x.func.id if isinstance(x.func, ast.Name) else x.func.attr) in ("defaultdict", "Counter") for x in ast.walk(fn.node)) and _defaultdict_to_get(fn.node)) or cw
         new, ch = _desugar_body(fn.node.body)
-        if ch:
+        if ch or cw:
             fn.node.body = new
             ast.fix_missing_locations(fn.node)
             relink(fn.node)
